@@ -159,6 +159,14 @@ CHECKS["C14"] = (MC,
     "Trusted: harness/c14.vary changes exactly the stated categories; NbPaths transcribes the documented meaning of the six options.",
     "DESIGN.md §5 C14")
 
+CHECKS["C16"] = ("exploration",
+    "TLC enumeration of RenderMatrix.tla (ignore subsets x colour x colour-words x renderer x input) applied to the real renderers; TLC "
+    "trace validation (RenderTrace.tla: Completes, EmptyDiffPrintsNothing, ShownDiffPrintsSomething via NbPaths categories, NoAnsiWithoutColor)",
+    "The contract RenderOK is a TLA+ predicate over (kind, configuration, diff, output); the configuration matrix is enumerated by TLC and "
+    "every rendering is one validated trace event. Assurance is breadth over configurations and inputs (no state machine behind it), hence "
+    "exploration level.",
+    "Trusted: PATH-based renderer selection; the path categories of NbPaths for 'touches a non-ignored category'.", "DESIGN.md §5 C16")
+
 NOT_YET = {}
 
 PROPS = [json.loads(l)["id"] for l in open(os.path.join(VERIF, "properties.jsonl"))]
